@@ -1097,7 +1097,8 @@ def plan_misc(rng: random.Random, tree, src=None, unpar_p=0.3):
     else:
         c = [(n, p) for n, p in nodes if isinstance(n, ast.expr) and isinstance(getattr(n, 'ctx', ast.Load()), ast.Load)
              and not any(f in ('format_spec',) for f, _ in p)]
-        c = [(n, p) for n, p in c if not _under_ftstr(tree, p) and not _under_pattern(tree, p)]
+        c = [(n, p) for n, p in c if not _under_ftstr(tree, p) and not _under_pattern(tree, p)
+             and not _annassign_target_head(tree, p)]
         if not c:
             return None
         n, p = rng.choice(c)
@@ -1116,6 +1117,20 @@ def _under(tree, path, kinds):
         if i is not None:
             n = n[i]
     return n.__class__.__name__ in kinds
+
+
+def _annassign_target_head(tree, path):
+    """The leftmost primary of an annotated Attribute / Subscript target: CPython (not the grammar in the language
+    reference) rejects redundant parentheses there, '(t)[i]: int' is "illegal target for annotation" while '(t)[i] = 1'
+    and '((t)[i]): int' are fine - a parser quirk outside what C01 is about, par(force=True) is not asked there."""
+    n = tree
+    for k, (f, i) in enumerate(path):
+        if n.__class__.__name__ == 'AnnAssign' and f == 'target':
+            return len(path) > k + 1 and all(g == 'value' for g, _ in path[k + 1:])
+        n = getattr(n, f)
+        if i is not None:
+            n = n[i]
+    return False
 
 
 def _under_ftstr(tree, path):
